@@ -315,6 +315,7 @@ theorem step_exec {s : St} (hw : WF s) (r : Req) : Step s (exec s r).1 := by
   | get k => exact Step.refl hw
   | list kd => exact Step.refl hw
   | listUsagesOf kd n => exact Step.refl hw
+  | listSel kd n => exact Step.refl hw
   | setStatus k rv conds =>
     exact step_withObj hw k rv _ (fun o => .of_eq rfl rfl rfl rfl rfl rfl id (fun _ h => h) rfl rfl)
   | removeFin k rv fin =>
